@@ -8,12 +8,10 @@ from props.parts import _tracksv1_gen as G
 NS = "EngineModel.Properties.C06V1."
 LEAN_MODULES = ["Properties.C06V1"]
 THEOREMS = [NS + t for t in [
-    "v1_C06_get_set", "v1_C06_reject", "v1_C06_frame", "v1_C06_frame_derived", "v1_C06_getter_snapshot",
-    "v1_C06_inv_write", "v1_C06_inv_set", "v1_C06_other_track", "v1_C06_history", "v1_C06_history_other_tracks"]]
-import os as _os
-if not _os.path.exists(_os.path.join(LEAN, "Properties", "C06V1.lean")):
-    # the 1.x theorem file is not in the tree yet: claim the tie only, say so
-    THEOREMS, LEAN_MODULES = [], []
+    "v1_C06_setter_spec", "v1_C06_get_set", "v1_C06_reject", "v1_C06_never_ub", "v1_C06_frame", "v1_C06_frame_derived",
+    "v1_C06_getter_snapshot", "v1_C06_slot_getters_safe", "v1_C06_inv_write", "v1_C06_inv_set", "v1_C06_inv_db",
+    "v1_C06_other_track", "v1_C06_db_get_set", "v1_C06_history", "v1_C06_history_getters",
+    "v1_C06_history_other_tracks", "v1_C06_spec_get_put", "v1_C06_spec_frame"]]
 ASSUMPTIONS = [
     "1.x: setters are modelled on the rows of one track (every statement they issue has WHERE id = ?); the only "
     "cross-track coupling is UNIQUE(path) from 1.11.1 on, which is part of the database-level step",
@@ -105,6 +103,10 @@ def build(rng, tier, schemas):
                 lines.append("mktrack %s %s" % (t, G.snap_txt(x))); meta.append(("mk", t))
             if rng.random() < 0.15:
                 lines.append("v1.rmperf b"); meta.append(("rmperf", "b"))
+            for t in TRACKS:
+                # a grid adjusted in Engine: default grid != adjusted grid (no library call produces this state)
+                if rng.random() < 0.4:
+                    lines.append("v1.skewgrid %s" % t); meta.append(("skew", t))
             slots = [("hot_cue_at", 0), ("hot_cue_at", 7), ("loop_at", 0), ("loop_at", 7)]
             for (l, m) in obs_lines(slots):
                 lines.append(l); meta.append(("obs", 0) + m)
@@ -169,6 +171,15 @@ def split_snap(txt):
     return d
 
 
+def snap_as_input(txt):
+    """snapshot text as printed -> as parsed (file_bytes is printed unsigned but read as a signed decimal)"""
+    t = txt.split()
+    i = 3 + 1 + 2 * int(t[3]) + 5
+    if t[i] != "none" and int(t[i]) >= 2 ** 63:
+        t[i] = str(int(t[i]) - 2 ** 64)
+    return " ".join(t)
+
+
 def overlapping(f, g):
     """getter g legitimately changes when setter f is called (same field, a view of it, or derived)"""
     fb = f.split()[0]
@@ -192,7 +203,7 @@ def tie(ctx):
     rng = random.Random(ctx.seed * 6151 + 606)
     schemas = G.QUICK_SCHEMAS if ctx.tier == "quick" else G.SCHEMAS
     scripts = build(rng, ctx.tier, schemas)
-    hres = runner.run_harness([s[1] for s in scripts], watchdog=30)
+    hres, retried = G.run_harness_robust(runner, [s[1] for s in scripts], watchdog=30)
     mres = runner.run_model([s[1] for s in scripts])
     spec_lines = []
     for (sch, lines, meta) in scripts:
@@ -205,9 +216,10 @@ def tie(ctx):
     divergences, violations = [], []
     hist = {"steps": 0, "set_ok": 0, "set_throw": {}, "spec_reject": 0, "setter_stricter_than_spec": {},
             "by_field": {}, "slot_indices": {}, "getter_eq_snapshot_checks": 0, "frame_checks": 0,
-            "other_track_checks": 0, "nan_values": 0, "perf_row_missing_scripts": 0}
+            "other_track_checks": 0, "nan_values": 0, "perf_row_missing_scripts": 0, "watchdog_retries": retried}
     distinct = set()
     evals = 0
+    put_lines, put_meta = [], []
     for (sch, lines, meta), (hout, hrep), mout in zip(scripts, hres, mres):
         for i, l in enumerate(lines):
             evals += 1
@@ -216,6 +228,7 @@ def tie(ctx):
                                     "model": mout[i][:400]})
         if any(m and m[0] == "rmperf" for m in meta):
             hist["perf_row_missing_scripts"] += 1
+        hist["skewed_grid_tracks"] = hist.get("skewed_grid_tracks", 0) + sum(1 for m in meta if m and m[0] == "skew")
         # observations per step on the real library's answers
         obs = {}
         sets = {}
@@ -264,6 +277,11 @@ def tie(ctx):
                              ["get %s %s" % (t, fkey), "want: " + spec[:400], "got:  " + got[:400]])
                         continue
                     distinct.add((f, spec))
+                # the whole lens on the implementation's own snapshots: snapshot after = putField (snapshot before)
+                sb, sa = before.get((t, "snap"), ""), after.get((t, "snap"), "")
+                if spec.startswith("ok ") and not nan and sb.startswith("ok ") and sa.startswith("ok "):
+                    put_lines.append("v1spec.putfield %s %s %s" % (f, v, snap_as_input(sb[3:])))
+                    put_meta.append((sa, sch, f, t, lines, meta, i))
             else:
                 c = res.split()[1] if len(res.split()) > 1 else res
                 hist["set_throw"][c] = hist["set_throw"].get(c, 0) + 1
@@ -311,17 +329,28 @@ def tie(ctx):
                         viol(kk, "getter %s and snapshot().%s disagree on %s" % (g, g, sch),
                              ["get %s %s" % (t, g), "snap %s" % t, "getter:   " + got[:300], "snapshot: " + want[:300]])
                         break
+    # second Spec pass: the lens applied to the snapshot the real library returned before the call
+    hist["snapshot_lens_checks"] = len(put_lines)
+    pout = [o for outs in runner.run_model(runner.shard(put_lines, NCPU)) for o in outs] if put_lines else []
+    for want, (sa, sch, f, t, lines, meta, i) in zip(pout, put_meta):
+        if want != sa:
+            body = [l for l, m in zip(lines[:i + 1], meta[:i + 1]) if not (m and m[0] in ("obs", "rows"))]
+            violations.append({"tag": "oracle", "signature": None,
+                               "header": {"kind": "history", "part": "C06_v1",
+                                          "what": "snapshot() after setter %s is not the snapshot before with that field "
+                                                  "replaced by the normalised value on %s" % (f, sch)},
+                               "body": body + ["note: snap " + t, "note: want: " + want[:600], "note: got:  " + sa[:600]]})
     crashes = [r for (_, reps) in hres for r in reps]
     return {
         "ok": not divergences and not violations,
         "evaluations": evals,
         "distinct_nontrivial": len(distinct),
         "rule": "1.x: setter histories over 3 tracks (one fully analysed, one minimal, one random; in some scripts the "
-                "PerformanceData row of one track is deleted first), every setter incl. slot setters at indices 0..7 and "
+                "PerformanceData row of one track is deleted first, and the default beat grid of some tracks is made different from the adjusted one, as Engine does), every setter incl. slot setters at indices 0..7 and "
                 "out of range, values from the C01 classes; after every step all 26 getters, slot getters, filename / "
                 "extension and snapshot() of all three tracks; model vs implementation line by line; lens laws "
-                "(get-after-set = Spec.normField, frame, other tracks, getter = snapshot field) on the implementation's "
-                "answers; non-trivial = distinct (setter, normalised value) pairs confirmed by the getter",
+                "(get-after-set = Spec.normField, frame, other tracks, getter = snapshot field, snapshot after = "
+                "Spec.putField of the snapshot before) on the implementation's answers; non-trivial = distinct (setter, normalised value) pairs confirmed by the getter",
         "samples": [scripts[0][1][2][:300]] + [l[:200] for l in scripts[0][1] if l.startswith("set ")][:3],
         "histograms": hist,
         "divergences": divergences[:20],
